@@ -1,4 +1,225 @@
 import SrProofs.Spring
+
+/-!
+# C04 — the receiver spring system is in equilibrium for every connection option
+
+Model: `SrModel.Spring` (`make_network`, `remove_rigid`, `split_disconnect`, `validate_solve`,
+`dof_maps`, `fj`/`RJ`).  The topological theorems quantify over **every** receiver option `r`,
+**every** list of panels `ps : List (Opt × Nat)` (option and number of tubes of each panel — any
+number of panels, any number of tubes, any assignment of disconnect / rigid / stiffness) — no bound.
+`layout ps` names the nodes `make_network` creates: for a panel record `pr`, `pr.node` is the panel
+node and each `t ∈ pr.tubes` has `t.top`, `t.bot` (the node with the displacement BC) and the tube
+index `t.id`.  `rigidRep net n` is the node that stands for `n` after `remove_rigid`.
+The assembly theorem is over an arbitrary commutative ring.
+
+Not proved here (stated so that nothing is weakened silently):
+* the order in which networkx reports edges/components is not modelled; that the result of
+  `reduce_graph` does not depend on it is established by the exact correspondence only;
+* uniqueness of the zero of the residual when `K_ff` is nonsingular (with `assembly_linear` the residual
+  of `RJ` *is* `K d - f`, so its zeros are exactly the solutions of the direct-stiffness equations;
+  the harness compares the real displacements with an independent direct-stiffness solve);
+* Newton convergence (C17) and IEEE rounding.
+-/
 namespace SrProps.C04
-theorem placeholder : True := trivial
+open SrModel.Spring
+
+/-- **reduce_total.** `reduce_graph` never raises on a network built by `make_network`: no rigid link
+lies across a spring, no two BC nodes are merged, no BC is deleted. -/
+theorem reduce_total (r : Opt) (ps : List (Opt × Nat)) :
+    ∃ comps, reduce (buildNetwork r ps) = .ok comps :=
+  ⟨_, (buildNetwork_treeNet r ps).reduce_eq⟩
+
+/-- **tubes_partition.** Every tube edge (hanging on the representative of its top node) lies in
+exactly one returned component, the node sets of the returned components are pairwise
+disjoint, and no component lists an edge twice.  (Connectedness of each component is part of `components_solvable`.) -/
+theorem tubes_partition (r : Opt) (ps : List (Opt × Nat)) (comps : List Net)
+    (h : reduce (buildNetwork r ps) = .ok comps) :
+    (∀ pr ∈ layout ps, ∀ t ∈ pr.tubes,
+      ∃ c ∈ comps, (⟨rigidRep (buildNetwork r ps) t.top, t.bot, .tube t.id⟩ : Edge) ∈ c.edges ∧
+        ∀ c' ∈ comps, (⟨rigidRep (buildNetwork r ps) t.top, t.bot, .tube t.id⟩ : Edge) ∈ c'.edges → c' = c) ∧
+    comps.Pairwise (fun c d => ∀ n, n ∈ c.nodes → n ∉ d.nodes) ∧
+    (∀ c ∈ comps, c.edges.Nodup) := by
+  have hT := buildNetwork_treeNet r ps
+  rw [hT.reduce_eq] at h
+  cases h
+  refine ⟨fun pr hpr t ht => ?_, hT.comps_disjoint, fun c hc => ?_⟩
+  swap
+  · obtain ⟨r', _, _, _, rfl, _⟩ := mem_components.1 hc
+    exact hT.comp_edges_nodup r'
+  have := hT.tube_in_one (tubeEdge_mem (r := r) hpr ht) rfl
+  have hrel : relabel (rlab (buildNetwork r ps)) ⟨t.top, t.bot, .tube t.id⟩ =
+      ⟨rigidRep (buildNetwork r ps) t.top, t.bot, .tube t.id⟩ := by
+    show (⟨(L r ps).get t.top, (L r ps).get t.bot, _⟩ : Edge) = _
+    rw [L_bot hpr ht]; rfl
+  rw [hrel] at this
+  exact this
+
+/-- **rigid_shares_node.** A rigid panel option merges the top node of each of its tubes with the
+panel node; a rigid receiver option merges every panel node with node 0.  Any other option keeps
+the node. -/
+theorem rigid_shares_node (r : Opt) (ps : List (Opt × Nat)) (pr : PanelRec) (hpr : pr ∈ layout ps) :
+    (∀ t ∈ pr.tubes, pr.opt = .rigid →
+      rigidRep (buildNetwork r ps) t.top = rigidRep (buildNetwork r ps) pr.node) ∧
+    (∀ t ∈ pr.tubes, pr.opt ≠ .rigid → rigidRep (buildNetwork r ps) t.top = t.top) ∧
+    (r = .rigid → rigidRep (buildNetwork r ps) pr.node = rigidRep (buildNetwork r ps) 0) ∧
+    (r ≠ .rigid → rigidRep (buildNetwork r ps) pr.node = pr.node) ∧
+    rigidRep (buildNetwork r ps) 0 = 0 := by
+  refine ⟨fun t ht ho => ?_, fun t ht ho => ?_, fun hr => ?_, fun hr => ?_, L_zero⟩
+  · show (L r ps).get t.top = (L r ps).get pr.node
+    rw [L_top hpr ht, if_pos ho]
+  · show (L r ps).get t.top = t.top
+    rw [L_top hpr ht, if_neg ho]
+  · show (L r ps).get pr.node = (L r ps).get 0
+    rw [L_panel hpr, if_pos hr, L_zero]
+  · show (L r ps).get pr.node = pr.node
+    rw [L_panel hpr, if_neg hr]
+
+/-- rigidly connected tubes hang on one node of one component: the tube edges of a rigid panel all
+start at the panel's representative -/
+theorem rigid_tubes_one_node (r : Opt) (ps : List (Opt × Nat)) (comps : List Net)
+    (h : reduce (buildNetwork r ps) = .ok comps) (pr : PanelRec) (hpr : pr ∈ layout ps)
+    (ho : pr.opt = .rigid) (t : TubeRec) (ht : t ∈ pr.tubes) :
+    ∃ c ∈ comps, (⟨rigidRep (buildNetwork r ps) pr.node, t.bot, .tube t.id⟩ : Edge) ∈ c.edges := by
+  obtain ⟨c, hc, he, _⟩ := (tubes_partition r ps comps h).1 pr hpr t ht
+  rw [(rigid_shares_node r ps pr hpr).1 t ht ho] at he
+  exact ⟨c, hc, he⟩
+
+/-- **disconnect_alone.** If a panel's option is "disconnect", the component of each of its tubes is
+returned and consists of the tube's top and bottom node, that single tube edge, and the bottom BC:
+the single-tube problem. -/
+theorem disconnect_alone (r : Opt) (ps : List (Opt × Nat)) (comps : List Net)
+    (h : reduce (buildNetwork r ps) = .ok comps) (pr : PanelRec) (hpr : pr ∈ layout ps)
+    (ho : pr.opt = .disconnect) (t : TubeRec) (ht : t ∈ pr.tubes) :
+    ∃ c ∈ comps, (∀ n, n ∈ c.nodes ↔ n = t.top ∨ n = t.bot) ∧
+      (∀ e, e ∈ c.edges ↔ e = ⟨t.top, t.bot, .tube t.id⟩) ∧ (∀ n, n ∈ c.bcs ↔ n = t.bot) := by
+  rw [(buildNetwork_treeNet r ps).reduce_eq] at h
+  cases h
+  obtain ⟨h1, h2, h3, h4⟩ := disconnect_component (r := r) hpr ho ht
+  exact ⟨_, h1, h2, h3, h4⟩
+
+/-- **components_solvable.** Every returned component passes `validate_solve`: all its edges are
+springs, it is connected, and it has a node with a displacement BC. -/
+theorem components_solvable (r : Opt) (ps : List (Opt × Nat)) (comps : List Net)
+    (h : reduce (buildNetwork r ps) = .ok comps) :
+    ∀ c ∈ comps, validateSolve c = .ok () ∧ ∃ b, b ∈ c.bcs := by
+  have hT := buildNetwork_treeNet r ps
+  rw [hT.reduce_eq] at h
+  cases h
+  intro c hc
+  obtain ⟨r', hr, hl, hcl, rfl, hk⟩ := mem_components.1 hc
+  have := hT.comp_valid hr hl hcl hk
+  exact ⟨this, validateSolve_ok_bcs this⟩
+
+/-- **orientation.** In every returned component each tube edge is the edge of a tube of the receiver;
+it joins a smaller-numbered upper node, which carries no BC, to a larger-numbered lower node, which
+is a BC node of that component.  (With `fjDisp_orient` below: the tube is handed
+`d_upper - d_lower` whichever way networkx reports the edge.) -/
+theorem orientation (r : Opt) (ps : List (Opt × Nat)) (comps : List Net)
+    (h : reduce (buildNetwork r ps) = .ok comps) :
+    ∀ c ∈ comps, ∀ e ∈ c.edges, e.isTube = true →
+      e.i < e.j ∧ e.j ∈ c.bcs ∧ e.i ∉ c.bcs ∧
+      ∃ pr ∈ layout ps, ∃ t ∈ pr.tubes, e = ⟨rigidRep (buildNetwork r ps) t.top, t.bot, .tube t.id⟩ := by
+  have hT := buildNetwork_treeNet r ps
+  rw [hT.reduce_eq] at h
+  cases h
+  intro c hc e he ht
+  obtain ⟨r', _, _, _, rfl, _⟩ := mem_components.1 hc
+  have hm := mem_comp_edges.1 he
+  have := hT.tube_edge hm.1 ht
+  refine ⟨this.1, mem_comp_bcs.2 ⟨this.2.1, by rw [this.2.2.2]; exact hm.2⟩, ?_, tube_edge_origin hm.1 ht⟩
+  intro hb
+  exact this.2.2.1 (mem_comp_bcs.1 hb).1
+
+/-- a numeric panel connection is kept as an edge of the component of its tube -/
+theorem numeric_link_kept (r : Opt) (ps : List (Opt × Nat)) (comps : List Net)
+    (h : reduce (buildNetwork r ps) = .ok comps) (pr : PanelRec) (hpr : pr ∈ layout ps) (q : Rat)
+    (ho : pr.opt = .stiff q) (t : TubeRec) (ht : t ∈ pr.tubes) :
+    ∃ c ∈ comps, (⟨rigidRep (buildNetwork r ps) pr.node, t.top, .conn (.stiff q)⟩ : Edge) ∈ c.edges ∧
+      (⟨t.top, t.bot, .tube t.id⟩ : Edge) ∈ c.edges := by
+  rw [(buildNetwork_treeNet r ps).reduce_eq] at h
+  cases h
+  exact stiff_link (r := r) hpr ho ht
+
+/-- the displacement handed to a spring is `d(smaller dof) - d(larger dof)` for either orientation of
+the edge; the force and Jacobian contributions do not depend on the orientation either -/
+theorem fjDisp_orient {K : Type} [CommRing K] (law : Law K) (d : Nat → K) (ii jj : Nat) :
+    fjDisp d ii jj = fjDisp d jj ii ∧ (ii < jj → fjDisp d ii jj = d ii - d jj) ∧
+    (∀ r, fjF law d ii jj r = fjF law d jj ii r) ∧ (∀ r c, fjJ law d ii jj r c = fjJ law d jj ii r c) :=
+  ⟨fjDisp_symm d ii jj, fjDisp_lt d, fjF_symm law d ii jj, fjJ_symm law d ii jj⟩
+
+/-- **assembly_linear.** For linear springs `(i, j, k)` in dof numbering:
+* the assembled internal force is `K d` with `K = Σ k_e (e_i - e_j)(e_i - e_j)ᵀ` (`stiffness`), and the
+  assembled Jacobian is `K`, whichever way each edge is oriented;
+* row `r` is the force balance of node `r`: the sum over the springs of `k (d_r - d_other)` for the
+  springs that end at `r` (so the residual `F_int[free] - forces` of `RJ` vanishes exactly when every
+  free node is in balance with its external force);
+* a numeric connection between dofs `ii < jj` carries `k * (d_ii - d_jj)`. -/
+theorem assembly_linear {K : Type} [CommRing K] (l : List (Nat × Nat × K)) (d : Nat → K) (n : Nat)
+    (hn : ∀ e ∈ l, e.1 < n ∧ e.2.1 < n) :
+    (∀ r, assembleF (linEdges l) d r = (Finset.range n).sum (fun c => stiffness l r c * d c)) ∧
+    (∀ r c, assembleJ (linEdges l) d r c = stiffness l r c) ∧
+    (∀ r, assembleF (linEdges l) d r =
+      (l.map (fun e => e.2.2 * (delta r e.1 - delta r e.2.1) * (d e.1 - d e.2.1))).sum) ∧
+    (∀ r c, stiffness l r c = stiffness (l.map (fun e => (e.2.1, e.1, e.2.2))) r c) ∧
+    (∀ (k : K) (ii jj : Nat), ii < jj → (linearLaw k (fjDisp d ii jj)).1 = k * (d ii - d jj)) := by
+  refine ⟨fun r => assembleF_eq_K_mul l d r n hn, assembleJ_linear l d, assembleF_linear l d, ?_, ?_⟩
+  · intro r c
+    unfold stiffness
+    rw [List.map_map]
+    congr 1
+    apply List.map_congr_left
+    intro e _
+    simp only [Function.comp]
+    ring
+  · intro k ii jj h
+    rw [fjDisp_lt d h]; rfl
+
+/-! ### non-vacuity -/
+
+/-- receiver spring, one disconnected panel (1 tube), one rigid panel (2 tubes): the disconnected
+tube alone, everything else in one component hanging on the panel node 4 -/
+example : reduce (buildNetwork (.stiff 100) [(.disconnect, 1), (.rigid, 2)]) = .ok [
+    ⟨[0, 1, 4, 6, 8], [⟨0, 1, .conn (.stiff 100)⟩, ⟨0, 4, .conn (.stiff 100)⟩, ⟨4, 6, .tube 1⟩, ⟨4, 8, .tube 2⟩], [6, 8]⟩,
+    ⟨[2, 3], [⟨2, 3, .tube 0⟩], [3]⟩] := by decide
+
+/-- all rigid: one node carries every tube -/
+example : reduce (buildNetwork .rigid [(.rigid, 1), (.rigid, 2)]) = .ok [
+    ⟨[0, 3, 6, 8], [⟨0, 3, .tube 0⟩, ⟨0, 6, .tube 1⟩, ⟨0, 8, .tube 2⟩], [3, 6, 8]⟩] := by decide
+
+/-- F16 input: numeric receiver stiffness and every panel disconnected: the floating group
+`{0, 1, 4}` of connection springs is dropped, the three tubes are returned alone, all solvable -/
+example : reduce (buildNetwork (.stiff 100) [(.disconnect, 1), (.disconnect, 2)]) = .ok [
+    ⟨[2, 3], [⟨2, 3, .tube 0⟩], [3]⟩, ⟨[5, 6], [⟨5, 6, .tube 1⟩], [6]⟩, ⟨[7, 8], [⟨7, 8, .tube 2⟩], [8]⟩] := by decide
+
+example : (layout [(.disconnect, 1), (.rigid, 2)]) =
+    [⟨1, .disconnect, [⟨2, 3, 0⟩]⟩, ⟨4, .rigid, [⟨5, 6, 1⟩, ⟨7, 8, 2⟩]⟩] := by decide
+
+example : (List.range 9).map (rigidRep (buildNetwork (.stiff 100) [(.disconnect, 1), (.rigid, 2)])) =
+    [0, 1, 2, 3, 4, 4, 6, 4, 8] := by decide
+
+/-- the error branches of `remove_rigid` are reachable on networks not built by `make_network` -/
+example : reduce ⟨[0, 1, 2], [⟨0, 1, .conn .rigid⟩, ⟨0, 1, .conn (.stiff 1)⟩, ⟨1, 2, .tube 0⟩], [2]⟩ =
+    .error .rigidAcrossSpring := by decide
+example : reduce ⟨[0, 1], [⟨0, 1, .conn .rigid⟩], [0, 1]⟩ = .error .twoBCs := by decide
+example : reduce ⟨[0, 1], [⟨0, 1, .conn .rigid⟩], [1]⟩ = .error .deletingBC := by decide
+
+/-- assembly of two springs in series over ℤ: `K = [[2,-2,0],[-2,5,-3],[0,-3,3]]` -/
+example : (List.range 3).map (fun r => (List.range 3).map (fun c =>
+    assembleJ (linEdges [(0, 1, (2 : Int)), (2, 1, 3)]) (fun _ => 0) r c)) =
+    [[2, -2, 0], [-2, 5, -3], [0, -3, 3]] := by decide
+
+/-- **F16 (pinned commit).** With the final filter of `split_disconnect` as coded at the pinned
+commit the floating group of connection springs is returned … -/
+theorem pinned_witness :
+    splitDisconnectPinned (contractBy (rlab (buildNetwork (.stiff 100) [(.disconnect, 1), (.disconnect, 2)]))
+      (buildNetwork (.stiff 100) [(.disconnect, 1), (.disconnect, 2)])) =
+    [⟨[0, 1, 4], [⟨0, 1, .conn (.stiff 100)⟩, ⟨0, 4, .conn (.stiff 100)⟩], []⟩,
+     ⟨[2, 3], [⟨2, 3, .tube 0⟩], [3]⟩, ⟨[5, 6], [⟨5, 6, .tube 1⟩], [6]⟩, ⟨[7, 8], [⟨7, 8, .tube 2⟩], [8]⟩] := by
+  decide
+
+/-- … and it violates `components_solvable`: "Spring network requires at least one fixed BC!" -/
+theorem pinned_violates :
+    validateSolve ⟨[0, 1, 4], [⟨0, 1, .conn (.stiff 100)⟩, ⟨0, 4, .conn (.stiff 100)⟩], []⟩ =
+      .error .noFixedBC := by decide
+
 end SrProps.C04
